@@ -36,6 +36,7 @@ public:
     // Constructors
     //----------------------------------------------------------------------------------------------------------//
     constexpr TensorMap(scalar_type* data) : _data(data) {}
+    constexpr TensorMap(const TensorMap<T,Rest...>&) = default;
     template<size_t ... RestOther> constexpr TensorMap(Tensor<T,RestOther...> &a) : _data(a.data()) {}
     //----------------------------------------------------------------------------------------------------------//
 
@@ -95,6 +96,11 @@ public:
     FASTOR_INLINE void operator=(const AbstractTensor<Derived,DIMS>& src) {
         FASTOR_ASSERT(src.self().size()==size(), "TENSOR SIZE MISMATCH");
         assign(*this, src.self());
+    }
+    // Assigning a map to a map of the same type copies the elements like any other tensor assignment
+    // (the implicitly generated copy assignment would rebind the pointer and leave the buffer untouched)
+    FASTOR_INLINE void operator=(const TensorMap<T,Rest...>& src) {
+        assign(*this, src);
     }
 
     // AbstractTensor and scalar in-place operators
